@@ -104,10 +104,9 @@ def run(ctx, F):
         if ends and not starts:
             ctx.fail("F3-block-pairing", f"{b.def_}|end_block-without-start", f"{b.def_} closes a block it did not open", where=b.where(ends[0]))
     # ---------------------------------------------------------------- (ii) (iii) into_buffer
-    ib_ast = tree.one_method("output::cssdata::CssData", "into_buffer")
-    ib = prog.one("<output::cssdata::CssData>::into_buffer")
-    final_newline(ctx, ib_ast)
-    encoding_marker(ctx, prog, ib, tree)
+    ib, D, fa = finisher_set(prog, tree)
+    final_newline(ctx, fa)
+    encoding_marker(ctx, prog, ib, D, tree)
     # ---------------------------------------------------------------- (iv) newline discipline
     newline_discipline(ctx, tree, writers)
     comment_producers(ctx, prog)
@@ -212,75 +211,153 @@ def _emits_bracket(n):
     return False
 
 
-def final_newline(ctx, f):
-    stmts = f["body"]["stmts"]
-    txt = [A.show(s.get("x") or s.get("init")) for s in stmts]
-    tail = stmts[-4:]
-    ok = len(tail) == 4
+def finisher_set(prog, tree):
+    """CssData::into_buffer and the functions of the output::cssdata module it calls (its work may be split
+    into helpers); AST and MIR views."""
+    ib = prog.one("<output::cssdata::CssData>::into_buffer")
+    D = [ib]
+    i = 0
+    while i < len(D):
+        for bi, t in D[i].calls():
+            d = mir.callee_name(t)
+            if d and d in prog.bodies and "output::cssdata::" in d and d not in [x.def_ for x in D] and "{closure" not in d:
+                D.append(prog.bodies[d])
+        i += 1
+    names = {b.def_.rsplit("::", 1)[-1] for b in D}
+    fa = [f for f in tree.fn_list if f["path"].startswith("output::cssdata::") and f["sig"]["name"] in names]
+    return ib, D, fa
+
+
+MUTATORS = ("push", "push_str", "extend", "extend_from_slice", "insert", "append", "truncate", "clear", "pop", "remove", "retain", "drain", "resize", "splice")
+
+
+def final_newline(ctx, fa):
+    """(ii) in the function that finishes the output: `while R.last() == Some(&b'\n') { R.pop(); }` ... then
+    `if !R.is_empty() { R.push(b'\n') }`, nothing touches R afterwards, and R is what the function returns."""
+    key = "into_buffer tail: strip newlines, strip `;` (compressed), push one newline if non-empty"
+    found = []
+    for f in fa:
+        for blk in A.walk(f["body"]):
+            if blk.get("e") != "block":
+                continue
+            st = blk["stmts"]
+            for i, s_ in enumerate(st):
+                x = A.strip(s_.get("x") or {}) if s_.get("s") == "expr" else {}
+                if not (isinstance(x, dict) and x.get("e") == "if" and not x.get("else")):
+                    continue
+                pushes = [m for m in A.walk(x["then"]) if m.get("e") == "mcall" and m["m"] == "push" and m["args"] and A.strip(m["args"][0]).get("v") in (10, "\n")]
+                if len(pushes) != 1 or A.strip(pushes[0]["recv"]).get("e") != "path":
+                    continue
+                R = A.strip(pushes[0]["recv"])["p"]
+                found.append((f, st, i, x, R))
+    if len(found) != 1:
+        ctx.fail("F6-final-newline", key, f"expected exactly one place in CssData::into_buffer (and its helpers) that appends the final newline byte under an `if`, found {len(found)}")
+        return
+    f, st, i, x, R = found[0]
     why = []
-    if ok:
-        w, semi, push, ret = tail
-        wx = A.strip(w.get("x") or {})
-        if not (wx.get("e") == "while" and "result.last()" in A.show(wx["cond"]) and any(m.get("e") == "lit" and m.get("v") in (10, "\n") for m in A.walk(wx["cond"])) and "pop" in json.dumps(wx["body"])):
-            ok = False
-            why.append("no `while result.last() == Some(&b'\\n') { result.pop(); }`")
-        sx = A.strip(semi.get("x") or {})
-        if not (sx.get("e") == "if" and "compressed" in A.show(sx["cond"]) and '";"' in json.dumps(sx["cond"]).replace("59", '";"') and "pop" in json.dumps(sx["then"])):
-            if not (sx.get("e") == "if" and "compressed" in A.show(sx["cond"]) and "pop" in json.dumps(sx["then"])):
-                ok = False
-                why.append("no `if compressed && result.last() == Some(&b';') { result.pop(); }`")
-        px = A.strip(push.get("x") or {})
-        if not (px.get("e") == "if" and "is_empty" in A.show(px["cond"]) and A.show(px["cond"]).strip().startswith("!") and "push" in json.dumps(px["then"]) and not px.get("else")):
-            ok = False
-            why.append("no `if !result.is_empty() { result.push(b'\\n'); }`")
-        else:
-            pushed = [n for n in A.walk(px["then"]) if n.get("e") == "mcall" and n["m"] == "push"]
-            if len(pushed) != 1 or A.strip(pushed[0]["args"][0]).get("v") not in (10, "\n"):
-                ok = False
-                why.append("the appended byte is not a single newline")
-        rx = A.strip(ret.get("x") or {})
-        if not (A.show(rx).replace(" ", "") == "Ok(result)"):
-            ok = False
-            why.append("the function does not end with Ok(result)")
-    if ok:
-        ctx.ok("F6-final-newline", "into_buffer tail: strip newlines, strip `;` (compressed), push one newline if non-empty", None)
+    c = A.show(A.strip(x["cond"])).replace(" ", "")
+    if c not in (f"!{R}.is_empty()", f"!({R}.is_empty())"):
+        why.append(f"the final newline is appended under `{c}`, not `!{R}.is_empty()`")
+    others = [m for m in A.walk(x["then"]) if m.get("e") == "mcall" and m["m"] in MUTATORS and A.show(m["recv"]).strip() == R]
+    if len(others) != 1:
+        why.append("more than one mutation in the newline branch")
+    # before: a loop that strips every trailing newline of the same vector
+    strip_nl = False
+    strip_semi = False
+    for s_ in st[:i]:
+        y = A.strip(s_.get("x") or {}) if s_.get("s") == "expr" else {}
+        if isinstance(y, dict) and y.get("e") == "while":
+            cond = A.show(y["cond"]).replace(" ", "")
+            lits = [m.get("v") for m in A.walk(y["cond"]) if m.get("e") == "lit"]
+            pops = [m for m in A.walk(y["body"]) if m.get("e") == "mcall" and m["m"] == "pop" and A.show(m["recv"]).strip() == R]
+            if cond.startswith(f"({R}.last()==") and (10 in lits or "\n" in lits) and pops:
+                strip_nl = True
+        if isinstance(y, dict) and y.get("e") == "if" and not y.get("else"):
+            lits = [m.get("v") for m in A.walk(y["cond"]) if m.get("e") == "lit"]
+            pops = [m for m in A.walk(y["then"]) if m.get("e") == "mcall" and m["m"] == "pop" and A.show(m["recv"]).strip() == R]
+            if f"{R}.last()" in A.show(y["cond"]).replace(" ", "") and (59 in lits or ";" in lits) and pops:
+                strip_semi = True
+    if not strip_nl:
+        why.append(f"no `while {R}.last() == Some(&b'\\n') {{ {R}.pop(); }}` before the final newline is appended: the output can end with several newlines")
+    if not strip_semi:
+        why.append(f"no removal of a trailing `;` of `{R}` before the final newline")
+    # after: R is not touched any more and is the function's value
+    for s_ in st[i + 1:]:
+        muts = [m for m in A.walk(s_) if m.get("e") == "mcall" and m["m"] in MUTATORS and A.show(m["recv"]).strip() == R]
+        if muts:
+            why.append(f"`{R}` is modified again after the final newline was appended ({muts[0]['m']})")
+    last = st[-1]
+    tail = A.show(A.strip(last.get("x") or {})).replace(" ", "") if last.get("s") == "expr" and not last.get("semi") else ""
+    if tail not in (R, f"Ok({R})"):
+        why.append(f"the function does not end with `{R}` / `Ok({R})` (found `{tail[:40]}`)")
+    if why:
+        ctx.fail("F6-final-newline", key, f"{f['path']}: " + "; ".join(why), where=f["path"])
     else:
-        ctx.fail("F6-final-newline", "into_buffer tail: strip newlines, strip `;` (compressed), push one newline if non-empty", "CssData::into_buffer does not end with the strip / strip / push-one-newline / Ok(result) sequence: " + "; ".join(why))
+        ctx.ok("F6-final-newline", key, {"in": f["path"], "vector": R})
 
 
-def encoding_marker(ctx, prog, ib, tree):
-    S = sym.Sym(prog, inline_depth=0)
-    asc = [(bi, t) for bi, t in ib.calls() if (mir.callee_name(t) or "").endswith("::is_ascii")]
+def encoding_marker(ctx, prog, ib, D, tree):
+    S = sym.Sym(prog, inline_depth=3, force_inline={b.def_ for b in D[1:]}, auto_inline=False)
+    envs = {ib.def_: None}
+    for b in D[1:]:
+        sites = [(c, t) for c in D for bi, t in c.calls() if mir.callee_name(t) == b.def_]
+        envs[b.def_] = [S.operand(sites[0][0], a, env=envs.get(sites[0][0].def_)) for a in sites[0][1]["args"]] if len(sites) == 1 and sites[0][0].def_ in envs else None
+    from rules.C40 import producers
+    asc = [(b, bi, t) for b in D for bi, t in b.calls() if (mir.callee_name(t) or "").endswith("::is_ascii")]
     if len(asc) != 1:
-        ctx.fail("F4-encoding-marker", "marker chosen by is_ascii of the output", f"expected one is_ascii test in into_buffer, found {len(asc)}", where=ib.where())
+        ctx.fail("F4-encoding-marker", "marker chosen by is_ascii of the output", f"expected one is_ascii test in into_buffer (and its helpers), found {len(asc)}", where=ib.where())
     else:
-        bi, t = asc[0]
+        b, bi, t = asc[0]
         callee = mir.callee_name(t)
-        arg = sym.strip_transparent(S.operand(ib, t["args"][0]))
-        good = callee == "<[u8]>::is_ascii" and arg[0] == "call" and arg[1].endswith("CssBuf>::take")
+        arg = sym.strip_transparent(S.operand(b, t["args"][0], env=envs.get(b.def_)))
+        srcs = producers(arg)
+        good = callee == "<[u8]>::is_ascii" and srcs and all(x[0] == "call" and x[1].endswith("CssBuf>::take") for x in srcs)
         if good:
-            ctx.ok("F4-encoding-marker", "marker chosen by is_ascii of the output", {"tested": sym.show(arg)})
+            ctx.ok("F4-encoding-marker", "marker chosen by is_ascii of the output", {"tested": sym.show(srcs[0])[:120]})
         else:
-            ctx.fail("F4-encoding-marker", "marker chosen by is_ascii of the output", f"the charset / BOM decision tests `{callee}({sym.show(arg)[:80]})`, not `<[u8]>::is_ascii` of the finished output bytes (CssBuf::take): non-ASCII output could be emitted without its marker", where=ib.where(bi))
-    lits = [c.get("v") for c in mir.iter_consts_body(ib.raw) if isinstance(c.get("v"), str)]
+            ctx.fail("F4-encoding-marker", "marker chosen by is_ascii of the output", f"the charset / BOM decision tests `{callee}({sym.show(arg)[:80]})`, not `<[u8]>::is_ascii` of the finished output bytes (CssBuf::take): non-ASCII output could be emitted without its marker", where=b.where(bi))
     want = {"\ufeff", '@charset "UTF-8";\n'}
-    if want <= set(lits):
+    holder = None
+    for b in D:
+        lits = {c.get("v") for c in mir.iter_consts_body(b.raw) if isinstance(c.get("v"), str)}
+        if want <= lits:
+            holder = b
+    if holder is not None:
         ctx.ok("F6-marker-literals", "BOM and @charset literals present in into_buffer", None)
     else:
-        ctx.fail("F6-marker-literals", "BOM and @charset literals present in into_buffer", f"marker literals in into_buffer: {[l for l in lits if l and (l.startswith('@charset') or l == chr(0xfeff))]}", where=ib.where())
-    # which literal under which style: AST `let mark = if compressed { BOM } else { @charset }`
-    f = tree.one_method("output::cssdata::CssData", "into_buffer")
-    sel = None
-    for n in A.walk(f["body"]):
-        if n.get("e") == "if" and A.lit_str(A.strip(A.strip(n["then"]))) in want:
-            sel = n
-    if sel is not None and A.show(sel["cond"]).strip() == "compressed" and A.lit_str(A.strip(sel["then"])) == "\ufeff" and A.lit_str(A.strip(sel["else"])) == '@charset "UTF-8";\n':
+        ctx.fail("F6-marker-literals", "BOM and @charset literals present in into_buffer", "the two marker literals are not both present in into_buffer (or one helper of it)", where=ib.where())
+    # which literal under which style: the two constants are assigned on the two edges of a switch on is_compressed()
+    sel_ok = False
+    if holder is not None:
+        hb = holder
+        dom = hb.dominators()
+        where_lit = {}
+        for bi, si, st in hb.stmts():
+            if st["k"] == "assign":
+                for o in st["rv"].get("ops", []) or []:
+                    if o.get("k") == "const" and o.get("v") in want:
+                        where_lit[o["v"]] = bi
+        for bi, blk in enumerate(hb.blocks):
+            tm = blk["term"]
+            if tm["k"] != "switch" or len(want & set(where_lit)) != 2:
+                continue
+            false_t = [tg for v, tg, _ in tm["targets"] if str(v) == "0"]
+            true_t = tm["otherwise"]
+            if len(false_t) != 1:
+                continue
+            cond = sym.strip_transparent(S.operand(hb, tm["discr"], env=envs.get(hb.def_)))
+            is_c = cond[0] == "call" and cond[1].endswith("Format>::is_compressed")
+            bom_b, cs_b = where_lit["\ufeff"], where_lit['@charset "UTF-8";\n']
+            if is_c and (true_t in dom.get(bom_b, ()) or true_t == bom_b) and (false_t[0] in dom.get(cs_b, ()) or false_t[0] == cs_b):
+                sel_ok = True
+    if sel_ok:
         ctx.ok("F6-marker-literals", "compressed -> BOM, otherwise @charset", None)
     else:
-        ctx.fail("F6-marker-literals", "compressed -> BOM, otherwise @charset", "the marker selection is not `if compressed { \"\\u{feff}\" } else { \"@charset \\\"UTF-8\\\";\\n\" }`")
+        ctx.fail("F6-marker-literals", "compressed -> BOM, otherwise @charset", "the marker is not selected as: BOM on the true edge of is_compressed(), `@charset \"UTF-8\";\\n` on the false edge")
     others = []
+    dnames = {b.def_ for b in D}
     for b in prog.bodies.values():
-        if b is ib or b.def_.startswith("parser::"):
+        if b.def_ in dnames or b.def_.startswith("parser::"):
             continue
         for c in mir.iter_consts_body(b.raw):
             v = c.get("v")
